@@ -194,6 +194,29 @@ CHECKS.update({
     ),
 })
 
+CHECKS.update({
+    "C16": (
+        "Hypothesis-generated and exhaustively enumerated layer configurations (valid and invalid) against the specification's validity predicate and naive nested-loop references",
+        "Generated search over sliding_window_view arguments (types, values, layouts, dtypes) and conv/pool "
+        "configurations drawn from the specification's predicate rather than from what the implementation accepts: "
+        "acceptance <=> predicate, brute-force element formula, read-only view, byte bounds inside the owning buffer; "
+        "valid layer configurations equal naive loops and invalid ones raise; batchnorm, gru, softmax family and losses "
+        "equal their naive formulas. All 1-D conv/pool configurations with X<=8 are enumerated in the quick tier, all 2-D "
+        "ones with sides<=4 additionally in the thorough tier (exhaustive for that finite sub-space). Exploration elsewhere.",
+        "Reference loops written from the docstrings; gru with dropout=0 only (the only RNG-consuming path is not generated).",
+        "DESIGN.md §3 C16",
+    ),
+    "C17": (
+        "Hypothesis-generated cells of the construction/conversion lattice against a decision table taken from the docstrings; NumPy as value oracle",
+        "Generated search over input kind x entry point x dtype x constant x copy x ndmin and over creation-routine "
+        "arguments; the aliasing outcome, identity pass-through, detachment, dtype/values (vs numpy.array / NumPy's "
+        "creation routines), the constant=False gate for integer data and the rejection of non-real dtypes are compared "
+        "with an explicit decision table. Exploration only.",
+        "Decision table written from the docstrings of tensor/astensor/asarray/copy/astype; numpy is the value oracle.",
+        "DESIGN.md §3 C17",
+    ),
+})
+
 NOT_YET = {
 }
 
